@@ -340,6 +340,19 @@ def run_shard(args):
                 metas[i] = (root, st, txt)
                 C["never_compared_sites"] = C.get("never_compared_sites", 0) + 1
                 continue
+            if rng.random() < 0.1:
+                # `x in snapshot([...])`: the members that are tested stay as written (Is(...), f-strings), also under update
+                elems = [gen_elem(rng, 0, used, U, allow_cont=False, in_seq=True) for _ in range(rng.randint(2, 5))]
+                elems = [e for e in elems if e.kind in ("m", "is", "fstr")] or [E("m", text="1 + 0", value="1")]
+                handwrite(E("cont", ck="list", items=elems, star=False), rng)
+                txt = "[" + ", ".join(e.text for e in elems) + "]"
+                tested = [e for e in elems if rng.random() < 0.7] or elems[:1]
+                st["must"] = [(e.kind, e.text, "in-member", "tested") for e in tested if e.kind != "m"]
+                obs_in = [e.value for e in tested] + ([repr(fresh_value(rng, used))] if rng.random() < 0.4 else [])
+                sites.append({"id": i, "op": "in", "old": txt, "obs": obs_in, "place": rng.choice(["loop", "module"])})
+                metas[i] = (None, st, txt)
+                C["in_sites_with_unmanaged_members"] = C.get("in_sites_with_unmanaged_members", 0) + 1
+                continue
             obs = observe(root, rng, used, st, [])
             txt = old_text(root)
             getitem = rng.random() < 0.25
